@@ -518,3 +518,13 @@ func (c *Counter) Peek() int { return c.v }
 
 // TimersFired reports how many timers have fired so far in this execution (read as an HB event on the timer).
 func TimersFired() int { return S.TimersFired }
+
+// WriteYield is inserted by the instrumenter (option -writeyields) before assignments to fields, elements and
+// pointees: a scheduling point that makes unsynchronised shared-memory writes interleavable. It is a no-op
+// outside a managed thread (package initialisation).
+func WriteYield() {
+	if S == nil || S.cur == nil || S.aborting && S.cur == nil {
+		return
+	}
+	simple("write", nil)
+}
